@@ -111,6 +111,7 @@ def run(ctx):
     ntrees = ctx.n(70, 600)
     cases, records = [], []
     sens_terms = []
+    ids_cases = []
 
     def one_tree(inputs, output, size_dict, path, label, probe=False):
         N = len(inputs)
@@ -160,6 +161,9 @@ def run(ctx):
                     cases.append(("%s/%s/chi=%s/late=%s" % (label, oname, chi, late),
                                   "if %s then %s else %s" % (sens, rhs, term), rhs))
                     sens_terms.append(sens)
+                    ids_cases.append(("%s/%s/chi=%s/late=%s" % (label, oname, chi, late),
+                                      "ids_ok {c} {l} {n} {o}".format(c=coq(Z(chi)), l=coq(late), n=netl,
+                                                                     o=order_lit(trav)), "true"))
                     records.append(dict(rec, chi=chi, compress_late=late))
                 k += 1
             # ---------------- oracle ----------------------------------------------------
@@ -242,6 +246,12 @@ def run(ctx):
         rec.update(model_value=val, case=label,
                    correspondence="Model/Compressed.v ccs_trace vs compressed_contract_stats with a recording tracker")
         ctx.fail("model and implementation disagree on the compressed-contraction trace", rec, found_input=False)
+    # hypothesis of the peak / total_size theorems, evaluated for every compared run
+    for idx, label, val in ctx.coq_cases("c20_ids_ok", ["Compressed", "CompressedPeakFacts"], ids_cases, chunk=60, timeout=900):
+        rec = dict(records[idx]) if idx < len(records) else {}
+        rec.update(model_value=val, case=label)
+        ctx.fail("ids_ok (hypothesis of C20_total_size_is_sum_of_node_sizes / C20_capped_le_uncapped_peak) is false "
+                 "for a traversal the real tree produced", rec, found_input=False)
     # how many of the compared traces were (partly) outside the model because of an unknown set order
     try:
         flags = ctx.coq_eval(["Compressed"], ["[%s]" % "; ".join(sens_terms[i:i + 60])
